@@ -262,6 +262,12 @@ class CounterToken(Token, FileSystemEventHandler):
                     # Removed since the directory was listed (the thread that
                     # waits for the end of a job does not take the IPC lock)
                     continue
+                except ValueError:
+                    # Token files are written while the IPC lock is held: the
+                    # process writing this one died before it wrote its content
+                    # (and before it started its job)
+                    logging.warning("Ignoring incomplete token file %s", path)
+                    continue
                 tf.watch()
                 logging.debug("Read token file %s (%d)", path, tf.count)
             else:
